@@ -171,7 +171,10 @@ def run(r: Run):
                 margin = None if margin_s == "inf" else Fraction(margin_s)
                 # what a faithful f64 loop can decide: (2n+8) roundings, with a factor 4 of slack
                 safe = 4 * (2 * int(nspec) + 8) * Fraction(1, 2 ** 53)
-                if margin is not None and margin < safe:
+                # an EXACT tie (the n-th share equals 1 - t in rational arithmetic) is decided exactly by the f64 loop too when
+                # lambda is 1 (mass 1800: every term is a dyadic rational): "less than 1 - t" does not hold at the tie
+                exact_tie = margin == 0 and m == 1800 and int(nspec) <= 3
+                if margin is not None and margin < safe and not exact_tie:
                     skipped += 1
                 elif str(n) != nspec:
                     corr_ok = False
